@@ -57,7 +57,7 @@ def arith_tag(opts):
     return '%s/%s' % (opts['rule'], opts.get('arithmetic', 'default'))
 
 
-def usable(ctx, case):
+def usable(ctx, case, partial_ok=True):
     """
     True when the execution completed and can be judged.  Budget overruns are 'not explored';
     exceptions raised by droop are outside every property except C01/C16 and are only counted.
@@ -68,8 +68,13 @@ def usable(ctx, case):
         ctx.count('not_explored:budget:' + arith_tag(case.opts))
         return False
     if run.error is not None:
-        ctx.count('skipped_outside_property:%s:%s' % (run.phase, type(run.error).__name__))
-        return False
+        # an exception is outside every trace property (C01 owns it), but the history recorded
+        # before it was raised is real and is judged like any other
+        ctx.count('count_raised:%s:%s' % (run.phase, type(run.error).__name__))
+        if not (partial_ok and run.phase == 'count' and run.E is not None and run.snaps):
+            ctx.count('skipped_outside_property')
+            return False
+        ctx.count('partial_histories_judged')
     if run.hook_calls == 0:
         ctx.count('hook_never_fired')
         return False
